@@ -5,6 +5,12 @@ type nat =
 | O
 | S of nat
 
+val option_map : ('a1 -> 'a2) -> 'a1 option -> 'a2 option
+
+type ('a, 'b) sum =
+| Inl of 'a
+| Inr of 'b
+
 val fst : ('a1 * 'a2) -> 'a1
 
 val snd : ('a1 * 'a2) -> 'a2
@@ -18,7 +24,11 @@ type comparison =
 | Lt
 | Gt
 
+val compOpp : comparison -> comparison
+
 val add : nat -> nat -> nat
+
+val sub : nat -> nat -> nat
 
 type positive =
 | XI of positive
@@ -29,11 +39,20 @@ type n =
 | N0
 | Npos of positive
 
+type z =
+| Z0
+| Zpos of positive
+| Zneg of positive
+
 module Nat :
  sig
+  val eqb : nat -> nat -> bool
+
   val leb : nat -> nat -> bool
 
   val ltb : nat -> nat -> bool
+
+  val max : nat -> nat -> nat
  end
 
 module Pos :
@@ -47,6 +66,10 @@ module Pos :
 module Coq_Pos :
  sig
   val succ : positive -> positive
+
+  val add : positive -> positive -> positive
+
+  val add_carry : positive -> positive -> positive
 
   val pred_double : positive -> positive
 
@@ -65,6 +88,12 @@ module Coq_Pos :
 
   val sub_mask_carry : positive -> positive -> mask
 
+  val sub : positive -> positive -> positive
+
+  val mul : positive -> positive -> positive
+
+  val size_nat : positive -> nat
+
   val size : positive -> positive
 
   val compare_cont : comparison -> positive -> positive -> comparison
@@ -72,6 +101,10 @@ module Coq_Pos :
   val compare : positive -> positive -> comparison
 
   val eqb : positive -> positive -> bool
+
+  val ggcdn : nat -> positive -> positive -> positive * (positive * positive)
+
+  val ggcd : positive -> positive -> positive * (positive * positive)
 
   val iter_op : ('a1 -> 'a1 -> 'a1) -> positive -> 'a1 -> 'a1
 
@@ -86,7 +119,11 @@ module N :
 
   val double : n -> n
 
+  val add : n -> n -> n
+
   val sub : n -> n -> n
+
+  val mul : n -> n -> n
 
   val compare : n -> n -> comparison
 
@@ -121,13 +158,102 @@ val ascii_of_N : n -> char
 
 val ascii_of_nat : nat -> char
 
+val n_of_digits : bool list -> n
+
+val n_of_ascii : char -> n
+
+val nat_of_ascii : char -> nat
+
+val tl : 'a1 list -> 'a1 list
+
+val nth_error : 'a1 list -> nat -> 'a1 option
+
 val map : ('a1 -> 'a2) -> 'a1 list -> 'a2 list
 
+val fold_right : ('a2 -> 'a1 -> 'a1) -> 'a1 -> 'a2 list -> 'a1
+
 val forallb : ('a1 -> bool) -> 'a1 list -> bool
+
+val repeat : 'a1 -> nat -> 'a1 list
+
+module Z :
+ sig
+  val double : z -> z
+
+  val succ_double : z -> z
+
+  val pred_double : z -> z
+
+  val pos_sub : positive -> positive -> z
+
+  val add : z -> z -> z
+
+  val opp : z -> z
+
+  val sub : z -> z -> z
+
+  val mul : z -> z -> z
+
+  val compare : z -> z -> comparison
+
+  val sgn : z -> z
+
+  val leb : z -> z -> bool
+
+  val ltb : z -> z -> bool
+
+  val eqb : z -> z -> bool
+
+  val abs : z -> z
+
+  val to_nat : z -> nat
+
+  val of_nat : nat -> z
+
+  val of_N : n -> z
+
+  val to_pos : z -> positive
+
+  val quotrem : z -> z -> z * z
+
+  val quot : z -> z -> z
+
+  val rem : z -> z -> z
+
+  val ggcd : z -> z -> z * (z * z)
+ end
+
+val zeq_bool : z -> z -> bool
 
 val eqb0 : char list -> char list -> bool
 
 val append : char list -> char list -> char list
+
+val length0 : char list -> nat
+
+val substring : nat -> nat -> char list -> char list
+
+type q = { qnum : z; qden : positive }
+
+val inject_Z : z -> q
+
+val qeq_bool : q -> q -> bool
+
+val qle_bool : q -> q -> bool
+
+val qplus : q -> q -> q
+
+val qmult : q -> q -> q
+
+val qopp : q -> q
+
+val qminus : q -> q -> q
+
+val qinv : q -> q
+
+val qdiv : q -> q -> q
+
+val qred : q -> q
 
 type err =
 | ErrValue
@@ -158,13 +284,25 @@ val dec_N_fuel : nat -> n -> char list -> char list
 
 val dec_N : n -> char list
 
+val dec_Z : z -> char list
+
 val dec_nat : nat -> char list
+
+val is_digit : char -> bool
+
+val parse_N_acc : char list -> n -> n option
+
+val parse_N : char list -> n option
+
+val parse_Z : char list -> z option
 
 type sexp =
 | SAtom of char list
 | SList of sexp list
 
 val s_strs : char list list -> sexp
+
+val s_Z : z -> sexp
 
 val s_nat : nat -> sexp
 
@@ -181,6 +319,12 @@ val d_str : sexp -> char list option
 val d_list : (sexp -> 'a1 option) -> sexp list -> 'a1 list option
 
 val d_strs : sexp -> char list list option
+
+val d_Z : sexp -> z option
+
+val d_nat : sexp -> nat option
+
+val d_bool : sexp -> bool option
 
 val bad_input : sexp
 
@@ -258,5 +402,241 @@ val builtin_names : (char list * char list) list
 val documented : char list list
 
 val math_env : menv
+
+type cexp =
+| CVar of char list
+| CInt of z
+| CDbl of char list * z * positive
+| CBool of bool
+| CStr of char list
+| CBin of char list * cexp * cexp
+| CUn of char list * cexp
+| CNot of cexp
+| CDeref of cexp
+| CCall of char list * cexps
+| CMeth of cexp * bool * char list * cexps
+| CField of cexp * bool * char list
+| CCast of char list * cexp
+| CSubI of cexp * cexp
+| COpaque of char list * char list list
+and cexps =
+| CNil
+| CCons of cexp * cexps
+
+type decl = { d_type : char list; d_name : char list; d_init : cexp option }
+
+type stmt =
+| SSet of char list * char list option * cexp
+| SPush of char list * char list option * cexp
+| SClear of char list
+| SFill of char list
+| SThrow of char list
+| SFetch of char list * char list * char list * char list * char list list
+| SIota of char list * char list
+| SUser of char list list * char list list * char list option
+| SLine of char list * char list list
+| SFor of char list * cexp * block
+| SIf of cexp * block * block option
+| SBlk of block
+and block =
+| Blk of decl list * stmts
+and stmts =
+| SNil
+| SCons of stmt * stmts
+
+type member = { m_type : char list; m_name : char list }
+
+type branch = { br_name : char list; br_var : char list }
+
+type program = { p_members : member list; p_tree : char list;
+                 p_branches : branch list; p_book_extra : char list list;
+                 p_body : block }
+
+val pr_exp : cexp -> char list
+
+val pr_obj : cexp -> char list
+
+val pr_args : cexps -> char list
+
+val indent : nat -> char list
+
+val pr_decl : decl -> char list
+
+val pr_cast : char list option -> cexp -> char list
+
+val pr_stmt : nat -> stmt -> char list list
+
+val pr_block : nat -> block -> char list list
+
+val pr_stmts : nat -> stmts -> char list list
+
+val print_block : block -> char list list
+
+val d_cexp_fuel : nat -> sexp -> cexp option
+
+val sexp_depth : sexp -> nat
+
+val d_cexp : sexp -> cexp option
+
+val d_opt : (sexp -> 'a1 option) -> sexp -> 'a1 option option
+
+val d_decl : sexp -> decl option
+
+val d_stmt_fuel : nat -> sexp -> stmt option
+
+val d_block : sexp -> block option
+
+val d_member : sexp -> member option
+
+val d_branch : sexp -> branch option
+
+val d_program : sexp -> program option
+
+val run_print : sexp -> sexp
+
+type value =
+| VInt of z
+| VDbl of q
+| VBool of bool
+| VObj of nat
+| VNull
+| VVec of value list
+| VStr of char list
+| VSym of char list * value list
+| VUninit
+
+type fault =
+| FThrow
+| FOutOfRange
+| FNullDeref
+| FDivZero
+| FRetrieve
+
+type stuck =
+| KUnbound of char list
+| KUninit of char list
+| KType of char list
+| KOpaque of char list
+
+type 'a res =
+| ROk of 'a
+| RFault of fault
+| RStuck of stuck
+
+val rbind : 'a1 res -> ('a1 -> 'a2 res) -> 'a2 res
+
+type event = { ev_colls : ((char list * char list) * value) list;
+               ev_meths : ((nat * char list) * value) list }
+
+val assoc_ss :
+  (char list * char list) -> ((char list * char list) * value) list -> value
+  option
+
+val assoc_ns :
+  (nat * char list) -> ((nat * char list) * value) list -> value option
+
+type binding = char list * (char list * value)
+
+type frame = binding list
+
+type state = { frames : frame list; members : frame; rows : value list list }
+
+val frame_get : char list -> frame -> (char list * value) option
+
+val frame_set : char list -> value -> frame -> frame option
+
+val frames_get : char list -> frame list -> (char list * value) option
+
+val frames_set : char list -> value -> frame list -> frame list option
+
+val lookup : char list -> state -> (char list * value) option
+
+val assign : char list -> value -> state -> state option
+
+val qz : z -> q
+
+val qtrunc : q -> z
+
+val q_is0 : q -> bool
+
+val qlt : q -> q -> bool
+
+val prefix : char list -> char list -> bool
+
+val is_vector_type : char list -> bool
+
+val drop_last : char list -> char list
+
+val vector_elem_type : char list -> char list
+
+val conv : char list -> value -> value
+
+val num_of : value -> (z, q) sum option
+
+val to_q : (z, q) sum -> q
+
+val is_sym : value -> bool
+
+val arith : char list -> value -> value -> value res
+
+val unary : char list -> value -> value res
+
+val truth : value -> bool res
+
+val math_arg : value -> value
+
+val call_method : event -> value -> char list -> value list -> value res
+
+val eval : event -> state -> cexp -> value res
+
+val eval_args : event -> state -> cexps -> value list res
+
+val default_value : char list -> value
+
+val init_value : char list -> value -> value
+
+val pop_frame : state -> state
+
+val declare : char list -> char list -> value -> state -> state
+
+val run_decls : event -> decl list -> state -> state res
+
+val fill_row : branch list -> state -> value list
+
+val iota : nat -> z -> value list
+
+val exec_block : branch list -> event -> block -> frame -> state -> state res
+
+val initial_members : member list -> frame
+
+val run_event : program -> frame -> event -> (value list list * frame) res
+
+type job_result =
+| JDone of value list list list
+| JAbort of value list list list * nat * fault
+| JStuck of nat * stuck
+
+val run_job_from :
+  program -> frame -> event list -> nat -> value list list list -> job_result
+
+val run_job : program -> event list -> job_result
+
+val s_value : value -> sexp
+
+val d_value_fuel : nat -> sexp -> value option
+
+val d_value : sexp -> value option
+
+val d_event : sexp -> event option
+
+val s_fault : fault -> sexp
+
+val s_stuck : stuck -> sexp
+
+val s_rows : value list list -> sexp
+
+val s_job : job_result -> sexp
+
+val run_run : sexp -> sexp
 
 val dispatch : char list -> sexp -> sexp
